@@ -163,6 +163,9 @@ pub enum Op9 {
     EntryOrInsert(u8),
     EntryOrInsertWith(u8),
     HasValue(u8),
+    /// presence queries (`has_value`, `has_value_raw`, `entry` is left out) while a shared / exclusive guard of
+    /// that very resource is alive: they are not fetches and answer the same
+    HasValueHeld(u8, bool),
     HasValueRaw(u8, u8),
     GetMut(u8),
     GetMutRaw(u8, u8),
@@ -188,6 +191,8 @@ pub fn alphabet(full: bool) -> Vec<Op9> {
         v.push(Op9::EntryOrInsert(t));
         v.push(Op9::EntryOrInsertWith(t));
         v.push(Op9::HasValue(t));
+        v.push(Op9::HasValueHeld(t, false));
+        v.push(Op9::HasValueHeld(t, true));
         v.push(Op9::GetMut(t));
         v.push(Op9::TryFetch(t));
         v.push(Op9::TryFetchMut(t));
@@ -330,6 +335,24 @@ fn do_exec_write<T: R9>(w: &mut World) -> Result<(Out, Option<u64>), String> {
     let s = w.exec(|d: Write<T>| ser(&*d))?;
     Ok((Out::Val(Some(s)), None))
 }
+fn do_has_held<T: R9>(w: &mut World, excl: bool) -> Result<(Out, Option<u64>), String> {
+    if !w.has_value::<T>() {
+        return Ok((Out::Bool(false), None));
+    }
+    let w: &World = w;
+    let (a, b) = if excl {
+        let g = w.fetch_mut::<T>();
+        let r = (w.has_value::<T>(), w.has_value_raw(ResourceId::new::<T>()));
+        drop(g);
+        r
+    } else {
+        let g = w.fetch::<T>();
+        let r = (w.has_value::<T>(), w.has_value_raw(ResourceId::new::<T>()));
+        drop(g);
+        r
+    };
+    Ok((Out::Bool(a && b), None))
+}
 fn do_exec_pair<A: R9, B: R9>(w: &mut World) -> Result<(Out, Option<u64>), String> {
     let s = w.exec(|(a, b): (Read<A>, Write<B>)| {
         ser(&*a)?;
@@ -358,6 +381,7 @@ fn apply(w: &mut World, m: &mut Model, op: Op9) -> Result<(), (String, String)> 
             Op9::EntryOrInsert(t) => by_type!(t, do_entry, w, false),
             Op9::EntryOrInsertWith(t) => by_type!(t, do_entry, w, true),
             Op9::HasValue(t) => by_type!(t, do_has, w),
+            Op9::HasValueHeld(t, excl) => by_type!(t, do_has_held, w, excl),
             Op9::HasValueRaw(k, d) => Ok((Out::Bool(w.has_value_raw(rid(k, d))), None)),
             Op9::GetMut(t) => by_type!(t, do_get_mut, w),
             Op9::GetMutRaw(k, d) => Ok((Out::Bool(w.get_mut_raw(rid(k, d)).is_some()), None)),
@@ -415,7 +439,7 @@ fn apply(w: &mut World, m: &mut Model, op: Op9) -> Result<(), (String, String)> 
             let s = *m.entry((t, 0)).or_insert(made.unwrap_or(next_before));
             Out::Val(Some(zs(t, s)))
         }
-        Op9::HasValue(t) => Out::Bool(m.contains_key(&(t, 0))),
+        Op9::HasValue(t) | Op9::HasValueHeld(t, _) => Out::Bool(m.contains_key(&(t, 0))),
         Op9::HasValueRaw(k, d) | Op9::GetMutRaw(k, d) => Out::Bool(m.contains_key(&(k, d))),
         Op9::GetMut(t) | Op9::TryFetch(t) | Op9::TryFetchMut(t) | Op9::SystemDataOpt(t) => Out::Val(m.get(&(t, 0)).map(|s| zs(t, *s))),
         Op9::Fetch(t) | Op9::FetchMut(t) => match m.get(&(t, 0)) {
